@@ -210,6 +210,28 @@ def rule_cli(ck, aspects=("exit", "writes", "noninterference")):
     where = "_cli::main_cli"
     repo.func(where)
     n = 0
+    # the model stubs argparse: every option main_cli reads from the parsed arguments must be one the parser defines
+    import ast as _ast
+    cli = repo.module("_cli")
+    defined = set()
+    for c in _ast.walk(cli.tree):
+        if isinstance(c, _ast.Call) and isinstance(c.func, _ast.Attribute) and c.func.attr == "add_argument":
+            dest = next((k.value.value for k in c.keywords if k.arg == "dest" and isinstance(k.value, _ast.Constant)), None)
+            if dest is None:
+                names = [a.value for a in c.args if isinstance(a, _ast.Constant) and isinstance(a.value, str)]
+                longs = [x for x in names if x.startswith("--")] or names
+                dest = longs[0].lstrip("-").replace("-", "_") if longs else None
+            if dest:
+                defined.add(dest)
+    main = repo.func(where)
+    argnames = {t.id for a in _ast.walk(main) if isinstance(a, _ast.Assign) and isinstance(a.value, _ast.Call) and isinstance(a.value.func, _ast.Attribute) and a.value.func.attr == "parse_args"
+                for t in a.targets if isinstance(t, _ast.Name)}
+    reads = {a.attr for a in _ast.walk(main) if isinstance(a, _ast.Attribute) and isinstance(a.ctx, _ast.Load) and isinstance(a.value, _ast.Name) and a.value.id in argnames}
+    ck.instance(("cli", "arguments"), {"defined": sorted(defined), "read by main_cli": sorted(reads)}, fn=where)
+    if not argnames or len(defined) < 5:
+        ck.unknown(f"the argument parser of _cli is not recognised ({sorted(defined)})")
+    for r in sorted(reads - defined):
+        ck.violation(where, f"main_cli reads args.{r}, but no add_argument defines it: every run dies with AttributeError before anything is assembled", construct=f"cli argument {r} undefined")
     for cfg in matrix():
         try:
             paths = run_cli(repo, **cfg)
